@@ -446,19 +446,36 @@ pub fn fax_decode(data: &[u8], params: &CCITTFaxDecodeParams) -> Result<Vec<u8>>
     use fax::{Color, decoder::{pels, decode_g4}};
 
     if params.k < 0 {
-        let columns = params.columns as usize;
+        // (the geometry comes from the file: the decoder works with 16-bit widths and heights)
+        let width = match u16::try_from(params.columns) {
+            Ok(w) if w > 0 => w,
+            _ => bail!("CCITTFaxDecode: unsupported /Columns {}", params.columns)
+        };
+        let height = match params.rows {
+            0 => None,
+            r => match u16::try_from(r) {
+                Ok(h) => Some(h),
+                Err(_) => bail!("CCITTFaxDecode: unsupported /Rows {}", r)
+            }
+        };
+        let columns = width as usize;
         let rows = params.rows as usize;
+        if columns * rows > (1 << 28) {
+            bail!("CCITTFaxDecode: {}x{} is more than this decoder expands", columns, rows);
+        }
 
-        let height = if params.rows == 0 { None } else { Some(params.rows as u16)};
-        let mut buf = Vec::with_capacity(columns * rows);
-        decode_g4(data.iter().cloned(), columns as u16, height, |line| {
-            buf.extend(pels(line, columns as u16).map(|c| match c {
+        let mut buf = Vec::new();
+        let mut ragged = false;
+        decode_g4(data.iter().cloned(), width, height, |line| {
+            buf.extend(pels(line, width).map(|c| match c {
                 Color::Black => 0,
                 Color::White => 255
             }));
-            assert_eq!(buf.len() % columns, 0, "len={}, columns={}", buf.len(), columns);
+            ragged |= buf.len() % columns != 0;
         }).ok_or(PdfError::Other { msg: "faxdecode failed".into() })?;
-        assert_eq!(buf.len() % columns, 0, "len={}, columns={}", buf.len(), columns);
+        if ragged || buf.len() % columns != 0 {
+            bail!("CCITTFaxDecode: a decoded line is not {} pixels wide", columns);
+        }
 
         if rows != 0 && buf.len() != columns * rows {
             bail!("decoded length does not match (expected {rows}∙{columns}, got {})", buf.len());
